@@ -166,8 +166,32 @@ func histOracle(run *vh.Run, h appdrv.History, rs []appdrv.Resp, finalVals map[s
 	}
 	// replay on a second app instance to look at the state after every EndBlock
 	a, _ := appdrv.NewApp(h.Genesis)
+	// the oracle's own table of validator identities: written by ACCEPTED check-ins only
+	// (a check-in answered with a non-zero code must not register or change an identity)
+	ownIDs := map[string]string{}
 	for i, c := range h.Calls {
 		appdrv.Exec(a, c)
+		if c.Kind == "deliver" && rs[i].Panic == "" {
+			if m, ok := appdrv.MessageOf(c.Tx); ok && m.GetCheckIn() != nil && rs[i].Code == 0 {
+				if _, signer, ok := appdrv.DecodeTx(c.Tx); ok {
+					ownIDs[string(signer)] = string(m.GetCheckIn().ValidatorPublicKey)
+				}
+			}
+			appIDs := map[string]string{}
+			for k, v := range a.Identities {
+				appIDs[string(k.Bytes())] = v.Ed25519pubkey
+			}
+			if len(appIDs) != len(ownIDs) {
+				run.Violate(vh.Violation{Key: "C12:identity-without-accepted-check-in", What: fmt.Sprintf("call %d (%s): the application's validator identities are not the ones of the accepted check-ins", i, c.Note), Case: histCase{"hist", h}})
+				return
+			}
+			for k, v := range ownIDs {
+				if appIDs[k] != v {
+					run.Violate(vh.Violation{Key: "C12:identity-without-accepted-check-in", What: fmt.Sprintf("call %d (%s): the application's validator identities are not the ones of the accepted check-ins", i, c.Note), Case: histCase{"hist", h}})
+					return
+				}
+			}
+		}
 		if c.Kind != "end" || rs[i].Panic != "" {
 			continue
 		}
@@ -206,8 +230,8 @@ func histOracle(run *vh.Run, h appdrv.History, rs []appdrv.Resp, finalVals map[s
 			want := map[string]int64{}
 			checked := 0
 			for _, k := range eff.Keypers {
-				if id, ok := a.Identities[k]; ok {
-					want[id.Ed25519pubkey] += 10
+				if id, ok := ownIDs[string(k.Bytes())]; ok {
+					want[id] += 10
 					checked++
 				} else {
 					want[app.NonExistentValidator.Ed25519pubkey] += 10
